@@ -297,6 +297,19 @@ fn c06(src: &str) -> R {
             }
             _ => {}
         }
+        // "keyword tokens spell one of their keywords in any letter case": every keyword is an ASCII word, so the text of a
+        // keyword token is one too (macro keywords: `%` then the word) — the part of that sentence checkable without the tables
+        let name = format!("{:?}", k.ty);
+        if name.starts_with("Kwm") && !txt.is_empty() {
+            let w = txt.strip_prefix('%').unwrap_or("");
+            if w.is_empty() || !w.chars().all(|c| c.is_ascii_alphabetic()) {
+                return Err(format!("macro keyword token {i} {:?} has text {txt:?}, which spells no keyword", k.ty));
+            }
+        } else if name.starts_with("Kw") && !txt.is_empty() {
+            if !txt.chars().all(|c| c.is_ascii_alphanumeric() || c == '_') || txt.starts_with(|c: char| c.is_ascii_digit()) {
+                return Err(format!("keyword token {i} {:?} has text {txt:?}, which spells no keyword", k.ty));
+            }
+        }
         if txt.is_empty() && !matches!(k.ty, T::EOF | T::MacroSep | T::MacroStringEmpty | T::SEMI | T::LPAREN | T::RPAREN | T::ASSIGN | T::COMMA | T::FSLASH
             | T::StringExprEnd | T::BitTestingLiteralExprEnd | T::DateLiteralExprEnd | T::DateTimeLiteralExprEnd | T::NameLiteralExprEnd
             | T::TimeLiteralExprEnd | T::HexStringLiteralExprEnd | T::DatalinesData) {
@@ -862,7 +875,7 @@ fn fragments(prop: &str) -> Vec<&'static str> {
         "C13" | "C18" => vec!["%m(", "%macro ", "%l:", "%if ", "%then ", "%else ", "%do;", "%end;", "%let ", "/*c*/", "%str(", "%eval("],
         "C09" | "C14" => vec!["%do ", "%m", "%to ", "%let ", "%eval(", "%scan(", "%if ", "%then ", "%macro ", "%end", "%upcase(", "%m(", "b"],
         "C10" => vec!["%eval(", "%str(", "%do ", "%scan(", "datalines;", "%m", ":"],
-        "C06" | "C11" => vec!["datalines4;", "datalines;", "datalines", ";;;;", ";;", "data a;", "/*", "*/", "cards;", "\u{a0}", "\u{3000}", "\u{301}", "\u{663}"],
+        "C06" | "C11" => vec!["datalines4;", "datalines;", "datalines", ";;;;", ";;", "data a;", "/*", "*/", "cards;", "\u{a0}", "\u{3000}", "\u{301}", "\u{663}", "\u{17f}et", "\u{131}f"],
         "C04" | "C05" | "C02" | "C03" | "C17" => vec!["/*", "*/", "%m(", "😀", "%str(", "datalines;", "\u{feff}", "%*", "%let ", "%ю", "юа", "%eval(", "%if ", "$", "%put "],
         "C16" => vec!["ge", "eq", "%eval(", "'x", "e1", "0fx", "d", "dt", "%if ", "nE", "datalines;", "%then"],
         "C01" | "C19" => vec!["%do ", "%m(", "%*", "%let ", "%macro ", "%if ", "%to ", "%eval(", "%str(", "%sysfunc("],
